@@ -31,3 +31,27 @@ Theorem C10_effect_order_is_the_proved_one :
   force_destroy_prog = [DNextArch; DNextSlot; DEvent; DReadLast; DSwapEnts; DSwapCols; DAssignLast; DReleaseWith; DSetArch; DSetHead; DDecLen]
   /\ release_bumps_version = false.
 Proof. split; reflexivity. Qed.
+
+(* ---------------------------------------------------------------- run level *)
+From Gecs Require Import Query World Borrow Run WorldInv.
+
+(** Every state reached by any history of the run language, in every configuration and for every
+    declaration with 8-bit ids, satisfies the invariant of every storage of every world, including
+    the states left behind by operations that panicked (capacity and generation overflow, closure
+    panics in the three query loops, armed Clone/Drop faults, debug assertions on foreign keys), and
+    no step is undefined behaviour.  The hypotheses are the boolean test the check evaluates on the
+    histories it runs against the implementation. *)
+Theorem C10_every_reachable_state_is_consistent : forall cfg d qs ops, wf_case d ops = true ->
+  exists sts, run_states cfg d qs rs0 ops = Some sts /\ Forall (RInv d) sts /\ length sts = length ops.
+Proof. exact wf_case_never_ub. Qed.
+
+Theorem C10_one_step : forall cfg d qs st o, wf_decl d -> wf_op d o -> RInv d st ->
+  match step cfg d qs st o with Some (st', _) => RInv d st' | None => False end.
+Proof. exact step_inv. Qed.
+
+(** Non-vacuity: a history with a generation-overflow panic inside destroy (the F4 witness) and forged keys. *)
+Definition c10_decl : wdecl := WD [DA 0%N 0 [DC 0%N 0]; DA 3%N 1 [DC 0%N 0; DC 1%N 1]; DA 4%N 2 [DC 0%N 1; DC 1%N 2; DC 2%N 3]; DA 200%N 3 [DC 0%N 0; DC 1%N 1; DC 2%N 2; DC 3%N 4; DC 4%N 5; DC 5%N 6; DC 6%N 7; DC 7%N 8]] [3].
+Definition c10_ops : list op := [ONew [8; 5; 2; 0]; OPreset 0 4294967292%N 4294967295%N; OCreate 0 2%N; OCreate 0 3%N; ODestroy (LArch 0) KEnt TAny (RIssued 1); OReadAll RSlices 0; ODestroy LWorld KEnt (TUnchecked 3) (RRaw 1443157198%N 4172579363%N); OProbe LWorld KEnt TAny (RRaw 772%N 0%N)].
+Example C10_history_is_covered : wf_case c10_decl c10_ops = true /\
+  nth 4 (run (Config false true true) c10_decl [] c10_ops) [] = [2%N; pcode PArchOverflow].
+Proof. vm_compute. split; reflexivity. Qed.
